@@ -9,8 +9,11 @@
      D lines    : checked-in parser vs pest_vm on parse_and_optimize(grammar.pest) [vs compiled freshly
                   generated parsers, one further column each]                        -> kind "spec"
                   checked-in parser vs exec over gen_env of the optimized meta-grammar -> kind "model"
+     S lines    : a call of a public entry changed pest's process-wide settings (call limit, error detail): oracle on the
+                  implementation alone, printed by the harness only when it happens   -> kind "settings"
    argv.(1): texts longer than this many bytes are not run through the model (unary positions); -1: no model runs
-             (the targeted search: its oracle is the real code only). *)
+             (the targeted search, the large texts, the build with grammar-extras: the oracle is the real code only).
+   argv.(2): appended to every case (which build of the crates the lines come from, e.g. " feat=extras"). *)
 open Runner_common
 open Gen_model
 open Gen_common
@@ -25,6 +28,8 @@ let norm s = if String.length s >= 5 && String.sub s 0 5 = "Panic" then "Panic" 
 
 let () =
   let maxmodel = if Array.length Sys.argv > 1 then int_of_string Sys.argv.(1) else 200 in
+  let tag = if Array.length Sys.argv > 2 && Sys.argv.(2) <> "" then " " ^ Sys.argv.(2) else "" in
+  let leaks = ref 0 in
   let og : ogrammar ref = ref [] and osexp = ref "" and ast = ref "" in
   let names = ref [||] in
   let cases = ref 0 and modelled = ref 0 and tv = ref 0 and spec = ref 0 and fresh = ref 0 and limited = ref 0 in
@@ -41,7 +46,11 @@ let () =
       if !mismatches > before then Printf.printf "WHICH\t%s\n" (if k = "T" then "checked-in meta/src/grammar.rs" else "fresh derive_parser output")
     | "TE" :: x :: os :: msg :: rest ->
       incr tv; report "read" (Printf.sprintf "x=%s og=%s what=%s" x os (String.concat " " rest)) msg "a Rust file made of the shapes of generator.rs"
-    | "STAGES" :: _ -> print_endline line
+    | "STAGES" :: _ | "LEAKSEARCH" :: _ -> print_endline line
+    | "S" :: entry :: rule :: inp :: before :: after :: _ ->
+      (* own cap, so that these do not use up the report budget of the disagreements *)
+      incr leaks; incr mismatches;
+      if !leaks <= 6 then Printf.printf "MISMATCH\tsettings\t%s\t%s\t%s\n" (Printf.sprintf "r=%s in=%s entry=%s%s" rule inp entry tag) after before
     | ["GE"; msg] -> report "spec" "grammar.pest" msg "accepted by pest_meta"
     | ["G"; _; _; os; _] ->
       og := ogrammar_of os; osexp := os;
@@ -51,15 +60,15 @@ let () =
       (* a public entry of the checked-in parser (pest_meta::parser::parse, parse_and_optimize) against the generated parser it wraps /
          against pest_vm: printed by the harness only when they differ *)
       let nrm s = if String.length s >= 5 && String.sub s 0 5 = "Panic" then "Panic" else s in
-      if nrm x <> nrm y then begin incr spec; report "spec" (Printf.sprintf "r=%s in=%s against=%s entry=%s" rule inp who entry) x y end
+      if nrm x <> nrm y then begin incr spec; report "spec" (Printf.sprintf "r=%s in=%s against=%s entry=%s%s" rule inp who entry tag) x y end
     | "D" :: rule :: inp :: a :: b :: rest ->
       incr cases;
       let a = norm a and b = norm b in
       let case = Printf.sprintf "r=%s in=%s" rule inp in
-      if a <> b then begin incr spec; report "spec" (case ^ " against=vm") a b end;
+      if a <> b then begin incr spec; report "spec" (case ^ " against=vm" ^ tag) a b end;
       (* further columns: freshly generated parsers (1st: the token stream of the in-tree derive_parser compiled as source; 2nd: #[derive(Parser)]) *)
       List.iteri (fun i c -> incr fresh; let c = norm c in
-        let who = if i = 0 then " against=fresh" else " against=fresh-derive" in
+        let who = (if i = 0 then " against=fresh" else " against=fresh-derive") ^ tag in
         let a = base a in
         if c = "Custom call limit reached" && a <> c then begin
           (* only the fresh parsers run under a call limit (rust/harness/src/c14_fresh_main.rs.in): not an ordinary disagreement *)
@@ -72,4 +81,4 @@ let () =
         if m <> "Fuel" && m <> base a then report "model" (case ^ " side=generated") a m
       end
     | _ -> ());
-  Printf.printf "#RUNNER\tcases=%d\tmodelled=%d\ttv=%d\tmismatches=%d\tspec_differences=%d\tfresh_compared=%d\tfresh_limited=%d\n" !cases !modelled !tv !mismatches !spec !fresh !limited
+  Printf.printf "#RUNNER\tcases=%d\tmodelled=%d\ttv=%d\tmismatches=%d\tspec_differences=%d\tfresh_compared=%d\tfresh_limited=%d\tsettings_changed=%d\n" !cases !modelled !tv !mismatches !spec !fresh !limited !leaks
